@@ -262,10 +262,64 @@ def near_collisions ():
   ]
 
 
+def boundary_frames ():
+  """Frames that sit on the constants the extraction rules compare against: the 802.3 / Ethernet II cut at 0x0600 (maximum
+  802.3 length 1500 = 0x05dc; 0x05dd..0x05ff are neither valid lengths nor types and are left out), VLAN id 0xfff, ToS byte
+  0xff / 0x03, IP header length 6 and 15 words, DF without fragmentation, fragment offsets 1 and 0x1fff, port numbers 0 and
+  65535, ICMP 0/0 and 255/255, IP protocol 0 and 255, ARP opcodes 255 / 256 / 0xff01, addresses 0.0.0.0 and 255.255.255.255,
+  an all-zero source MAC, the highest switch port."""
+  ip = dict(dl_type=0x0800, nw_src=IPA, nw_dst=IPB)
+  ab = dict(dl_src=MA, dl_dst=MB)
+  big = bytes((i * 7 + 3) & 0xff for i in range(1497))
+  return [
+    Frame("eth-0600", eth(MB, MA, 0x0600, b"xerox-ns-idp-type-is-the-first-ethertype"), 1, dl_type=0x0600, **ab),
+    Frame("eth-0601", eth(MB, MA, 0x0601, b"one-above-the-first-ethertype-payload.."), 1, dl_type=0x0601, **ab),
+    Frame("len-05dc-llc", eth8023(MB, MA, b"\x42\x42\x03" + big), 1, dl_type=OFP_DL_TYPE_NOT_ETH_TYPE, **ab),
+    Frame("len-05dc-snap", eth8023(MB, MA, b"\xaa\xaa\x03\0\0\0\x06\x00" + big[:1492]), 1, dl_type=0x0600, **ab),
+    Frame("vlan-fff", eth(MB, MA, 0x8100, dot1q(0xfff, 0, 0, 0x0800, ipv4(17, udp(5353, 53), tos=0x08))), 1,
+          dl_vlan=0xfff, dl_vlan_pcp=0, nw_tos=0x08, nw_proto=17, tp_src=5353, tp_dst=53, **ab, **ip),
+    Frame("vlan-0600", eth(MB, MA, 0x8100, dot1q(1, 1, 0, 0x0600, b"tagged-frame-with-the-first-ethertype.")), 1,
+          dl_vlan=1, dl_vlan_pcp=1, dl_type=0x0600, **ab),
+    Frame("ip-tos-ff", eth(MB, MA, 0x0800, ipv4(17, udp(5353, 53), tos=0xff)), 1,
+          nw_tos=0xfc, nw_proto=17, tp_src=5353, tp_dst=53, **ab, **ip),
+    Frame("ip-tos-03", eth(MB, MA, 0x0800, ipv4(17, udp(5353, 53), tos=0x03)), 1,
+          nw_tos=0, nw_proto=17, tp_src=5353, tp_dst=53, **ab, **ip),
+    Frame("ip-hl6", eth(MB, MA, 0x0800, ipv4(17, udp(5353, 53), options=b"\x01" * 4)), 1,
+          nw_proto=17, tp_src=5353, tp_dst=53, **ab, **ip),
+    Frame("ip-hl15", eth(MB, MA, 0x0800, ipv4(6, tcp(1111, 80), options=b"\x01" * 40)), 1,
+          nw_proto=6, tp_src=1111, tp_dst=80, **ab, **ip),
+    Frame("ip-df", eth(MB, MA, 0x0800, ipv4(17, udp(5353, 53), mf=2)), 1,             # flags word 010: DF, not a fragment
+          nw_proto=17, tp_src=5353, tp_dst=53, **ab, **ip),
+    Frame("frag-off1", eth(MB, MA, 0x0800, ipv4(17, b"\x14\xe9\x00\x35" + b"w" * 20, fragoff=1)), 1,
+          nw_proto=17, tp_src=0, tp_dst=0, **ab, **ip),
+    Frame("frag-off-max", eth(MB, MA, 0x0800, ipv4(6, b"\x04\x57\x00\x50" + b"v" * 4, fragoff=0x1fff)), 1,
+          nw_proto=6, tp_src=0, tp_dst=0, **ab, **ip),
+    Frame("udp-ports-0-ffff", eth(MB, MA, 0x0800, ipv4(17, udp(0, 65535))), 1,
+          nw_proto=17, tp_src=0, tp_dst=65535, **ab, **ip),
+    Frame("tcp-ports-ffff-0", eth(MB, MA, 0x0800, ipv4(6, tcp(65535, 0))), 1,
+          nw_proto=6, tp_src=65535, tp_dst=0, **ab, **ip),
+    Frame("icmp-0-0", eth(MB, MA, 0x0800, ipv4(1, icmp(0, 0, b"\x12\x34\0\x01pong-data!"))), 1,
+          nw_proto=1, tp_src=0, tp_dst=0, **ab, **ip),
+    Frame("icmp-255-255", eth(MB, MA, 0x0800, ipv4(1, icmp(255, 255, b"\0\0\0\0unassigned-type."))), 1,
+          nw_proto=1, tp_src=255, tp_dst=255, **ab, **ip),
+    Frame("ip-proto0", eth(MB, MA, 0x0800, ipv4(0, b"\x3b\x00\x01\x04\0\0\0\0hop-by-hop")), 1, nw_proto=0, **ab, **ip),
+    Frame("ip-proto255", eth(MB, MA, 0x0800, ipv4(255, b"\x04\x57\x00\x50reserved-proto")), 1, nw_proto=255, **ab, **ip),
+    Frame("ip-addr-extremes", eth(BCAST, MA, 0x0800, ipv4(17, udp(68, 67, src=0, dst=0xffffffff), src=0, dst=0xffffffff)), 1,
+          dl_src=MA, dl_dst=BCAST, dl_type=0x0800, nw_src=0, nw_dst=0xffffffff, nw_proto=17, tp_src=68, tp_dst=67),
+    Frame("arp-op255", eth(MB, MA, 0x0806, arp(255, MA, IPA, MB, IPB)), 1, dl_type=0x0806, nw_proto=255, nw_src=IPA, nw_dst=IPB, **ab),
+    Frame("arp-op256", eth(MB, MA, 0x0806, arp(256, MA, IPA, MB, IPB)), 1, dl_type=0x0806, nw_proto=0, nw_src=IPA, nw_dst=IPB, **ab),
+    Frame("arp-op-ff01", eth(MB, MA, 0x0806, arp(0xff01, MA, IPA, MB, IPB)), 1, dl_type=0x0806, nw_proto=1, nw_src=IPA, nw_dst=IPB, **ab),
+    Frame("mac-zero-src", eth(MB, b"\0" * 6, 0x88b5, b"frame-from-the-all-zero-address....."), 1,
+          dl_src=b"\0" * 6, dl_dst=MB, dl_type=0x88b5),
+    Frame("tcp@port8", eth(MB, MA, 0x0800, ipv4(6, tcp(1111, 80), tos=0x20)), 8,
+          nw_tos=0x20, nw_proto=6, tp_src=1111, tp_dst=80, **ab, **ip),
+  ]
+
+
 def self_check ():
   """Returns a list of disagreements between the hand-written expectations and extract()."""
   bad = []
-  for fr in corpus() + near_collisions():
+  for fr in corpus() + near_collisions() + boundary_frames():
     got, app = extract(fr.data, fr.in_port)
     if got != fr.want:
       bad.append("%s: extract %r, corpus says %r" % (fr.name, sorted((k, v) for k, v in got.items() if fr.want.get(k) != v),
